@@ -109,7 +109,7 @@ def bounded(repo, tier, seed):
                    exhaustive=True, bounds="see rule")
     n = 40 if tier == 'quick' else 1000
     part2 = pd.run(repo, tier, seed, ['C18'], (lambda i: [['best', 'all', 'separate', 'joined'][i % 4]]) if tier == 'quick' else ['best', 'separate', 'joined', 'all'], n,
-                   weights=[2, 2, 1, 2, 2, 2],
+                   weights=[2, 2, 1, 2, 2, 2], params_list=[{}, {}, {}, {}, {'qid_pad': 1500}, {}, {}],
                    rule="every file written by the real program on generated CMAP sets (all modes, both strands, second-pass and joined records, one-record and "
                         "zero-record files) read back with XmapReader (plain and with-distance pair parser): one alignment per record in order, same ids, "
                         "orientation, HitEnum, label pairs, coordinates/lengths truncated to integers, confidence to 2 decimals, pair coordinates looked up from the same maps")
